@@ -59,14 +59,20 @@ fn split_subtables(
         return;
     }
 
-    let n_new_subtables = new_subtables
-        .values()
-        // - 1 because each group of new subtables replaces an old subtable
-        .map(|ids| ids.len() - 1)
+    // count the offsets we are going to write below: each group of new subtables
+    // replaces an old subtable at *every* position where that subtable occurs
+    // (identical subtables of one lookup are a single, shared object)
+    let n_total_subtables = data
+        .offsets
+        .iter()
+        .map(|sub| new_subtables.get(&sub.object).map_or(1, Vec::len))
         .sum::<usize>();
-    log::debug!("Splitting produced {n_new_subtables} new subtables");
+    log::debug!(
+        "Splitting produced {} new subtables",
+        n_total_subtables - data.offsets.len()
+    );
 
-    let n_total_subtables: u16 = (data.offsets.len() + n_new_subtables).try_into().unwrap();
+    let n_total_subtables: u16 = n_total_subtables.try_into().unwrap();
     // we just want the lookup type/flag/etc, but we need a generic FontRead type
     let generic_lookup: rlayout::Lookup<()> = data.reparse().unwrap();
     let mut new_data = TableData::new(data.type_);
@@ -243,6 +249,78 @@ mod tests {
 
         // fully after
         assert!(split_range_record(&record, 30, 35).is_none());
+    }
+
+    // a lookup may list the same (shared) subtable object more than once; the
+    // subtable count must match the offsets written when that subtable is split
+    #[test]
+    fn split_subtable_that_occurs_twice_in_lookup() {
+        use crate::tables::{
+            gpos::{PairPos, PairSet, PairValueRecord, PositionLookup, ValueRecord},
+            layout::{CoverageTable, Lookup, LookupFlag, LookupList},
+        };
+        use read_fonts::{tables::gpos as rgpos, FontData, FontRead};
+
+        fn big() -> PairPos {
+            // 300 pair sets x 60 records x 4 bytes: needs splitting
+            let coverage: CoverageTable = (100..400).map(GlyphId16::new).collect();
+            let pair_sets = (0..300u16)
+                .map(|i| {
+                    let records = (0..60u16)
+                        .map(|j| {
+                            PairValueRecord::new(
+                                GlyphId16::new(500 + j),
+                                ValueRecord::new().with_x_advance((i * 60 + j) as i16),
+                                ValueRecord::new(),
+                            )
+                        })
+                        .collect();
+                    PairSet::new(records)
+                })
+                .collect();
+            PairPos::format_1(coverage, pair_sets)
+        }
+        let small = PairPos::format_1(
+            [GlyphId16::new(5000)].into_iter().collect(),
+            vec![PairSet::new(vec![PairValueRecord::new(
+                GlyphId16::new(7),
+                ValueRecord::new().with_x_advance(42),
+                ValueRecord::new(),
+            )])],
+        );
+        let mut lookup = Lookup::new(
+            LookupFlag::USE_MARK_FILTERING_SET,
+            vec![big(), big(), small],
+        );
+        lookup.mark_filtering_set = Some(9);
+        let list = LookupList::new(vec![PositionLookup::Pair(lookup)]);
+        let bytes = crate::dump_table(&list).unwrap();
+
+        let list = rgpos::PositionLookupList::read(FontData::new(&bytes)).unwrap();
+        let rgpos::PositionLookup::Extension(lookup) = list.lookups().get(0).unwrap() else {
+            panic!("expected extension promotion");
+        };
+        assert_eq!(lookup.mark_filtering_set(), Some(9));
+        let first_glyphs = lookup
+            .subtables()
+            .iter()
+            .map(|sub| match sub.unwrap() {
+                rgpos::ExtensionSubtable::Pair(ext) => match ext.extension().unwrap() {
+                    rgpos::PairPos::Format1(table) => {
+                        table.coverage().unwrap().iter().next().unwrap().to_u16()
+                    }
+                    _ => panic!("wrong format"),
+                },
+                _ => panic!("wrong lookup type"),
+            })
+            .collect::<Vec<_>>();
+        // every piece of both copies, then the small subtable
+        assert_eq!(first_glyphs.len() % 2, 1);
+        let (pieces, last) = first_glyphs.split_at(first_glyphs.len() - 1);
+        let (copy1, copy2) = pieces.split_at(pieces.len() / 2);
+        assert!(copy1.len() > 1);
+        assert_eq!(copy1, copy2);
+        assert_eq!(last, [5000]);
     }
 
     #[test]
